@@ -146,4 +146,244 @@ theorem exec_rmoveto (env : Env) (s : St) (dx dy : Int) (rest : List Nat) (hp : 
       simp [T2.exec, h, hw, setWidth, countCheck, strict, rMoveTo, clear, widthDone, fixq]]
     exact checkMove_cont _ _ (by simp [rMoveTo, widthDone, h, hw, hme])
 
+
+theorem move_reaches (env : Env) (s : St) (dx dy : EncNum) (rest : List Nat) (hp : PendOK s)
+    (hme : s.moveErr = false) (hdx : Decodes dx) (hdy : Decodes dy) :
+    Reaches strict env s
+      ((if dx.isZero then dy.code ++ opBytes .vmoveto
+        else if dy.isZero then dx.code ++ opBytes .hmoveto
+        else dx.code ++ dy.code ++ opBytes .rmoveto) ++ rest)
+      (rMoveTo strict (widthDone env s) dx.val dy.val) rest := by
+  have hlen : s.stack.length ≤ 1 := by rcases hp with h | ⟨wv, h, _⟩ <;> simp [h]
+  have fin : ∀ (args : List EncNum) (op : Op) (tgt : St), (∀ a ∈ args, Decodes a) → args.length ≤ 2 →
+      checkMove (T2.exec strict env { s with stack := s.stack ++ vals args } op rest) = .ok (.cont tgt rest) →
+      Reaches strict env s (args.flatMap (·.code) ++ (opBytes op ++ rest)) tgt rest := by
+    intro args op tgt hd hl hex
+    refine (reaches_push strict env args hd s (opBytes op ++ rest) (by omega)).trans ?_
+    refine Reaches.single ?_ (by have := opBytes_pos op; simp only [List.length_append]; omega)
+    rw [step_op env _ op rest (by simp [vals]; omega), hex]
+  by_cases hzx : dx.isZero = true
+  · have h0 : dx.val = 0 := isZero_val hzx
+    simp only [hzx, if_true, h0]
+    have := fin [dy] .vmoveto _ (by simpa using hdy) (by simp) (by simpa [vals] using exec_vmoveto env s dy.val rest hp hme)
+    simpa [List.append_assoc] using this
+  · by_cases hzy : dy.isZero = true
+    · have h0 : dy.val = 0 := isZero_val hzy
+      simp only [hzx, hzy, if_true, if_false, h0]
+      have := fin [dx] .hmoveto _ (by simpa using hdx) (by simp) (by simpa [vals] using exec_hmoveto env s dx.val rest hp hme)
+      simpa [List.append_assoc] using this
+    · simp only [hzx, hzy, if_false]
+      have := fin [dx, dy] .rmoveto _ (by intro a ha; simp at ha; rcases ha with rfl | rfl <;> assumption) (by simp)
+        (by simpa [vals] using exec_rmoveto env s dx.val dy.val rest hp hme)
+      simpa [List.append_assoc] using this
+
+/-- the command list is drawable: lines and curves only after a moveto; no masks (this theorem) -/
+def cmdsOK : Bool → List EnCmd → Bool
+  | _, [] => true
+  | _, .move _ _ :: r => cmdsOK true r
+  | m, .seg _ :: r => m && cmdsOK m r
+  | _, .mask _ _ :: _ => false
+
+def CmdDecodes : EnCmd → Prop
+  | .move dx dy => Decodes dx ∧ Decodes dy
+  | .seg g => ∀ a ∈ g.args, Decodes a
+  | .mask _ _ => True
+
+theorem cmdsOK_segs (segs : List Seg) (l : List EnCmd) (m : Bool) (h : cmdsOK m (segs.map EnCmd.seg ++ l) = true)
+    (hne : segs ≠ []) : m = true ∧ cmdsOK true l = true := by
+  induction segs with
+  | nil => exact absurd rfl hne
+  | cons g t ih =>
+    simp only [List.map_cons, List.cons_append, cmdsOK, Bool.and_eq_true] at h
+    obtain ⟨hm, ht⟩ := h
+    subst hm
+    cases t with
+    | nil => exact ⟨rfl, by simpa using ht⟩
+    | cons g2 t2 => exact ⟨rfl, (ih ht (by simp)).2⟩
+
+theorem widthDone_rLineTo (env : Env) (q : Quirks) (s : St) (a b : Int) :
+    widthDone env (rLineTo q s a b) = rLineTo q (widthDone env s) a b := by
+  rcases hst : s.stack with _ | ⟨wv, _ | ⟨b, t⟩⟩ <;> by_cases hw : s.widthSet = true <;>
+    simp [widthDone, rLineTo, hst, hw]
+
+theorem widthDone_rCurveTo (env : Env) (q : Quirks) (s : St) (a b c d e f : Int) :
+    widthDone env (rCurveTo q s a b c d e f) = rCurveTo q (widthDone env s) a b c d e f := by
+  rcases hst : s.stack with _ | ⟨wv, _ | ⟨b, t⟩⟩ <;> by_cases hw : s.widthSet = true <;>
+    simp [widthDone, rCurveTo, hst, hw]
+
+theorem widthDone_drawSegs (env : Env) (q : Quirks) (s : St) (segs : List Seg) :
+    widthDone env (drawSegs q s segs) = drawSegs q (widthDone env s) segs := by
+  induction segs generalizing s with
+  | nil => rfl
+  | cons g t ih =>
+    rw [drawSegs_cons, drawSegs_cons, ih]
+    cases g with
+    | line dx dy => simp only [drawSeg, widthDone_rLineTo]
+    | curve a0 a1 a2 a3 a4 a5 => simp only [drawSeg, widthDone_rCurveTo]
+
+theorem widthDone_id (env : Env) (s : St) (h1 : s.stack = []) (h2 : s.widthSet = true) : widthDone env s = s := by
+  cases s
+  simp only at h1 h2
+  subst h1 h2
+  rfl
+
+theorem paths_reaches (env : Env) (f : Nat) :
+    ∀ (cmds : List EnCmd) (paths : List (List (Nat × Op))) (bytes : List Nat) (s : St),
+      encodePathsFuel f cmds paths = some bytes → cmdsOK s.hasMoved cmds = true →
+      (∀ c ∈ cmds, CmdDecodes c) → PendOK s → (s.hasMoved = true → s.stack = []) → s.moveErr = false →
+      ∃ sEnd, Reaches strict env s bytes sEnd (opBytes .endchar) ∧ PendOK sEnd ∧ sEnd.moveErr = false ∧
+        widthDone env sEnd = drawCmds strict (widthDone env s) cmds := by
+  induction f with
+  | zero => intro cmds paths bytes s h; simp [encodePathsFuel] at h
+  | succ f ih =>
+    intro cmds paths bytes s h hok hdec hp hms hme
+    cases cmds with
+    | nil =>
+      simp only [encodePathsFuel, Option.some.injEq] at h
+      subst h
+      exact ⟨s, Reaches.refl _ _, hp, hme, rfl⟩
+    | cons c rest =>
+      cases c with
+      | mask cn bs => simp [cmdsOK] at hok
+      | move dx dy =>
+        simp only [encodePathsFuel] at h
+        cases hr : encodePathsFuel f rest paths with
+        | none => rw [hr] at h; cases h
+        | some b' =>
+          rw [hr] at h
+          simp only [Option.map_some, Option.some.injEq] at h
+          obtain ⟨hdx, hdy⟩ := hdec _ List.mem_cons_self
+          have h1 := move_reaches env s dx dy b' hp hme hdx hdy
+          have hs1 : (rMoveTo strict (widthDone env s) dx.val dy.val).stack = [] := by
+            simp only [rMoveTo, widthDone]; split <;> (try split) <;> rfl
+          have hw1 : (rMoveTo strict (widthDone env s) dx.val dy.val).widthSet = true := by
+            simp only [rMoveTo, widthDone]; split <;> (try split) <;> rfl
+          have hm1 : (rMoveTo strict (widthDone env s) dx.val dy.val).moveErr = false := by
+            simp only [rMoveTo, widthDone]; split <;> (try split) <;> exact hme
+          obtain ⟨sEnd, k1, k2, k3, k4⟩ := ih rest paths b' _ hr (by simpa [cmdsOK, rMoveTo] using hok)
+            (fun c hc => hdec c (List.mem_cons_of_mem _ hc)) (Or.inl hs1) (fun _ => hs1) hm1
+          refine ⟨sEnd, ?_, k2, k3, ?_⟩
+          · rw [← h]; exact h1.trans k1
+          · rw [k4, widthDone_id env _ hs1 hw1]; rfl
+      | seg g =>
+        simp only [encodePathsFuel] at h
+        cases paths with
+        | nil => simp at h
+        | cons p ps =>
+          simp only at h
+          cases ha : assembleSubPath (takeSegs (EnCmd.seg g :: rest)).1 0 p with
+          | none => rw [ha] at h; cases h
+          | some b =>
+            rw [ha] at h
+            simp only at h
+            cases hr : encodePathsFuel f (takeSegs (EnCmd.seg g :: rest)).2 ps with
+            | none => rw [hr] at h; cases h
+            | some b' =>
+              rw [hr] at h
+              simp only [Option.map_some, Option.some.injEq] at h
+              have hspec := takeSegs_spec (EnCmd.seg g :: rest)
+              generalize hr1 : (takeSegs (EnCmd.seg g :: rest)).1 = segs at *
+              generalize hr2 : (takeSegs (EnCmd.seg g :: rest)).2 = tl at *
+              have hne : segs ≠ [] := by
+                rw [← hr1]; simp [takeSegs]
+              rw [hspec] at hok
+              obtain ⟨hmoved, hoktl⟩ := cmdsOK_segs segs tl _ hok hne
+              have hst := hms hmoved
+              obtain ⟨path, hpath, hb⟩ := assemble_isPath segs p 0 b ha
+              have hdseg : ∀ g ∈ segs, ∀ a ∈ g.args, Decodes a := by
+                intro g' hg'
+                have : EnCmd.seg g' ∈ EnCmd.seg g :: rest := by
+                  rw [hspec]; exact List.mem_append_left _ (List.mem_map_of_mem hg')
+                exact hdec _ this
+              have hready : Ready s := ⟨hst, hmoved, hme⟩
+              have h1 := path_reaches env segs 0 path hpath hdseg s hready b'
+              simp only [List.drop_zero] at h1
+              have hr1' := ready_drawSegs strict s segs hready
+              obtain ⟨sEnd, k1, k2, k3, k4⟩ := ih tl ps b' (drawSegs strict s segs) hr
+                (by rw [hr1'.2.1]; exact hoktl)
+                (fun c hc => hdec c (by rw [hspec]; exact List.mem_append_right _ hc))
+                (Or.inl hr1'.1) (fun _ => hr1'.1) hr1'.2.2
+              refine ⟨sEnd, ?_, k2, k3, ?_⟩
+              · rw [← h, hb]; exact h1.trans k1
+              · rw [k4, hspec, drawCmds_segs, widthDone_drawSegs]
+
+
+theorem endchar_step (env : Env) (s : St) (hp : PendOK s) :
+    ∃ s', step strict env s (opBytes .endchar) = .ok (.done s') ∧ s'.glyph = (widthDone env s).glyph := by
+  have hlen : s.stack.length ≤ 48 := by rcases hp with h | ⟨wv, h, _⟩ <;> simp [h]
+  have := step_op env s .endchar [] hlen
+  rw [List.append_nil] at this
+  rw [this]
+  rcases hp with h | ⟨wv, h, hw⟩
+  · by_cases hws : s.widthSet = true <;>
+      exact ⟨_, by simp [T2.exec, h, setWidth, strict, checkMove, hws]; rfl, by simp [widthDone, h, St.glyph]⟩
+  · exact ⟨_, by simp [T2.exec, h, hw, setWidth, strict, checkMove]; rfl, by simp [widthDone, h, hw, St.glyph]⟩
+
+theorem drawCmds_frame (q : Quirks) (s : St) (l : List EnCmd) :
+    (drawCmds q s l).width = s.width ∧ (drawCmds q s l).hstem = s.hstem ∧ (drawCmds q s l).vstem = s.vstem := by
+  induction l generalizing s with
+  | nil => exact ⟨rfl, rfl, rfl⟩
+  | cons c t ih =>
+    rw [drawCmds_cons]
+    obtain ⟨h1, h2, h3⟩ := ih (drawCmd q s c)
+    rw [h1, h2, h3]
+    cases c with
+    | move dx dy => exact ⟨rfl, rfl, rfl⟩
+    | mask cn bs => exact ⟨rfl, rfl, rfl⟩
+    | seg g =>
+      cases g with
+      | line dx dy => exact ⟨rfl, rfl, rfl⟩
+      | curve a0 a1 a2 a3 a4 a5 => exact ⟨rfl, rfl, rfl⟩
+
+/-- the state in front of the path section of a glyph without stem hints: the width operand, if the
+width differs from the default width, is waiting on the stack -/
+def startState (env : Env) (K : Nat) (w : Int) : St :=
+  if w != env.defaultWidth * 2 ^ (K - 16) then
+    { St.init env with stack := [(encNum (w - env.nominalWidth * 2 ^ (K - 16)) K).val] }
+  else St.init env
+
+/-- Whole charstring, glyphs without stem hints and masks: the specification interpreter, run on the
+bytes `encodeCharString` emits for ANY choice of edge paths, ends normally (`endchar`) and returns the
+glyph obtained by drawing the encoded commands. -/
+theorem glyph_sound_nostems (env : Env) (K : Nat) (w : Int) (cmds : List InCmd)
+    (paths : List (List (Nat × Op))) (bytes : List Nat)
+    (h : encodeCharString K w [] [] cmds env.defaultWidth env.nominalWidth paths = some bytes)
+    (hok : cmdsOK false (encodeArgs K cmds) = true) (hdec : ∀ c ∈ encodeArgs K cmds, CmdDecodes c)
+    (hw : w ≠ env.defaultWidth * 2 ^ (K - 16) → Decodes (encNum (w - env.nominalWidth * 2 ^ (K - 16)) K)) :
+    T2.interp strict env bytes =
+      .ok (drawCmds strict (widthDone env (startState env K w)) (encodeArgs K cmds)).glyph := by
+  simp only [encodeCharString, List.length_nil, Nat.zero_mod, bne_self_eq_false, Bool.or_self,
+    Bool.false_eq_true, if_false, stemListFuel, beq_self_eq_true, if_true, List.append_nil] at h
+  cases hp : encodePaths (encodeArgs K cmds) paths with
+  | none => rw [hp] at h; cases h
+  | some pb =>
+    rw [hp] at h
+    simp only [Option.map_some, Option.some.injEq] at h
+    have hinit : (St.init env).moveErr = false ∧ (St.init env).hasMoved = false ∧ (St.init env).stack = [] ∧
+        (St.init env).widthSet = false := ⟨rfl, rfl, rfl, rfl⟩
+    by_cases hwd : w = env.defaultWidth * 2 ^ (K - 16)
+    · -- default width: nothing in front of the path section
+      have hs0 : startState env K w = St.init env := by simp [startState, hwd]
+      simp only [hwd, bne_self_eq_false, Bool.false_eq_true, if_false, List.nil_append] at h
+      obtain ⟨sEnd, k1, k2, k3, k4⟩ := paths_reaches env _ _ paths pb (St.init env) hp hok hdec (Or.inl rfl)
+        (fun hm => by cases hm) rfl
+      obtain ⟨s', e1, e2⟩ := endchar_step env sEnd k2
+      rw [← h, interp_of_reaches strict env pb sEnd s' _ k1 e1, e2, k4, hs0]
+    · have hne : (w != env.defaultWidth * 2 ^ (K - 16)) = true := by simpa using hwd
+      simp only [hne, if_true] at h
+      have hd := hw hwd
+      have h1 := reaches_push strict env [encNum (w - env.nominalWidth * 2 ^ (K - 16)) K]
+        (by intro a ha; simp at ha; subst ha; exact hd) (St.init env) pb (by simp [St.init])
+      simp only [List.flatMap_cons, List.flatMap_nil, List.append_nil, vals, List.map_cons, List.map_nil] at h1
+      have hs0 : startState env K w =
+          { St.init env with stack := (St.init env).stack ++ [(encNum (w - env.nominalWidth * 2 ^ (K - 16)) K).val] } := by
+        simp [startState, hne, St.init]
+      rw [← hs0] at h1
+      have hpend : PendOK (startState env K w) := by
+        rw [hs0]; exact Or.inr ⟨_, rfl, rfl⟩
+      obtain ⟨sEnd, k1, k2, k3, k4⟩ := paths_reaches env _ _ paths pb (startState env K w) hp
+        (by rw [hs0]; exact hok) hdec hpend (by rw [hs0]; intro hm; cases hm) (by rw [hs0]; rfl)
+      obtain ⟨s', e1, e2⟩ := endchar_step env sEnd k2
+      rw [← h, interp_of_reaches strict env _ sEnd s' _ (h1.trans k1) e1, e2, k4]
+
 end SfntV.T2Enc
